@@ -65,6 +65,8 @@ def run(tier, out):
         k_cmdoutput.run_k(tier, out, os.path.join(wd, "k"))
     except ImportError:
         out.notes.append("component-level CommandOutput check not present")
+    from checks import k_writetask
+    k_writetask.run_k(tier, out, os.path.join(wd, "kwt"), prop="C14", only=("KindS", "KindVS"))
     out.add(traces_validated_against_impl=tot_cases, trace_events_validated=tot_events,
             rule="scripts are behaviours of AgentEnv.tla (TLC simulation, seeded) plus long bursts; every recorded execution of the real agent+runtime is validated against Trace_NoCoalesce.tla",
             checker_cmd="tlc -simulate AgentEnv; h_runtime/e2e; tlc Trace_NoCoalesce (POSTCONDITION TraceAccepted)")
